@@ -240,7 +240,7 @@ def run_check(modname, tier="quick", seed=0, update_ledger=False, only_case=None
         os.makedirs(os.path.dirname(ledger_path), exist_ok=True)
         json.dump(ledger, open(ledger_path, "w"), indent=0, sort_keys=True)
     missing = [n for n in ledger.get(prop, []) if n not in set(names_now)] if not only_case else []
-    if prop not in ledger and not update_ledger:
+    if prop not in ledger and not update_ledger and level != "exploration":
         lines.append("note: no ledger entry for this property (run `vcheck ledger`)")
 
     # replay every violation natively
@@ -344,7 +344,7 @@ def run_check(modname, tier="quick", seed=0, update_ledger=False, only_case=None
         for n in missing[:30]:
             print(f"UNDECIDED ledger obligation no longer generated: {n}")
         return 2
-    if n_ob == 0:
+    if n_ob == 0 and not (level == "exploration" and bounded is not None and cov.get("evaluations", 0) > 0):
         print("UNDECIDED zero obligations generated")
         return 2
     return 0
